@@ -37,20 +37,34 @@ Proof. exact new_word_list_diag_values. Qed.
 
 (** ---- every output statement of the CURRENT source (coq/Gen/OutputSites.v, regenerated on every run) ---- *)
 From Spg.Gen Require OutputSites.
-From Coq Require Import String.
+From Coq Require Import String Permutation.
+From Spg.Base Require Import Multiset.
 Open Scope string_scope.
+(** boolean equality on statement signatures, and its soundness *)
+Definition sig_eqb (a c : string * string * string * list string) : bool :=
+  String.eqb (fst (fst (fst a))) (fst (fst (fst c))) && String.eqb (snd (fst (fst a))) (snd (fst (fst c))) &&
+  String.eqb (snd (fst a)) (snd (fst c)) && list_eqb String.eqb (snd a) (snd c).
+Lemma sig_eqb_eq a c : sig_eqb a c = true -> a = c.
+Proof.
+  destruct a as [[[a1 a2] a3] a4]. destruct c as [[[c1 c2] c3] c4]. unfold sig_eqb. cbn [fst snd]. intros H.
+  apply andb_prop in H. destruct H as [H H4]. apply andb_prop in H. destruct H as [H H3]. apply andb_prop in H. destruct H as [H1 H2].
+  apply String.eqb_eq in H1. apply String.eqb_eq in H2. apply String.eqb_eq in H3.
+  apply (list_eqb_eq String.eqb (fun x y E => proj1 (String.eqb_eq x y) E)) in H4. subst. reflexivity.
+Qed.
 Definition site_sig (s : OutputSites.out_site) :=
   (OutputSites.site_func s, OutputSites.site_callee s, OutputSites.site_stream s, map OutputSites.arg_kind (OutputSites.site_args s)).
-(** the package has exactly these statements that can write to standard output, standard error, the process log or a panic message ... *)
+(** the package has exactly these statements that can write to standard output, standard error, the process log or a panic
+    message (as a set with multiplicity: the order in which the translator meets them — file order, position in the file —
+    carries no meaning) ... *)
 Theorem C18_output_sites :
-  map site_sig OutputSites.src_output_sites =
+  Permutation (map site_sig OutputSites.src_output_sites)
   [("CharRecipe.SuccessProbability", "log.Println", "log", ["conststring"]);
    ("CharRecipe.SuccessProbability", "log.Println", "log", ["conststring"]);
    ("randomUint32", "panic", "panic", ["conststring"; "error-method-string"]);
    ("entropySimple", "fmt.Printf", "stdout", ["int"]);
    ("randomUint32n", "panic", "panic", ["conststring"]);
    ("NewWordList", "log.Printf", "log", ["int"])].
-Proof. vm_compute. reflexivity. Qed.
+Proof. apply (same_multiset_perm sig_eqb sig_eqb_eq). vm_compute. reflexivity. Qed.
 (** ... every argument of which is a constant string, an integer, a float or the text of a read error:
     no value of token, password, word or separator type reaches an output statement *)
 Theorem C18_output_sites_numeric :
@@ -59,10 +73,13 @@ Theorem C18_output_sites_numeric :
 Proof. vm_compute. reflexivity. Qed.
 (** the two formatted statements are the two templates of the model (Model/Diag.v) *)
 Theorem C18_templates_are_the_formats :
-  map (fun s => bos (OutputSites.site_format s))
-      (filter (fun s => String.eqb (OutputSites.site_callee s) "fmt.Printf" || String.eqb (OutputSites.site_callee s) "log.Printf") OutputSites.src_output_sites)
-  = [(tpl_entropy_simple ++ bos "%d" ++ nl)%list; (bos "%d" ++ tpl_duplicates ++ nl)%list].
-Proof. vm_compute. reflexivity. Qed.
+  Permutation
+    (map (fun s => bos (OutputSites.site_format s))
+         (filter (fun s => String.eqb (OutputSites.site_callee s) "fmt.Printf" || String.eqb (OutputSites.site_callee s) "log.Printf") OutputSites.src_output_sites))
+    [(tpl_entropy_simple ++ bos "%d" ++ nl)%list; (bos "%d" ++ tpl_duplicates ++ nl)%list].
+Proof.
+  apply (same_multiset_perm (list_eqb N.eqb) (list_eqb_eq N.eqb (fun x y E => proj1 (N.eqb_eq x y) E))). vm_compute. reflexivity.
+Qed.
 Close Scope string_scope.
 
 Print Assumptions C18_nonintereference_char.
